@@ -105,7 +105,7 @@ def _corr_shard(name, shard, nshards, tier, seed):
                 cases.append((5, 5, [list(alle[k]) for k in range(25) if mask >> k & 1]))
                 sample5 += 1
     elif name == 'bipartite.random':
-        n = (400 if tier == 'quick' else 6000) // nshards + 1
+        n = (400 if tier == 'quick' else 40000) // nshards + 1
         cases = list(random_cases(rng, n, 12 if tier == 'quick' else 60))
         if shard == 0:
             cases += list(random_cases(rng, 20, 60))
